@@ -78,6 +78,7 @@ func moduleReach(P *Prog, start *ssa.Function, depth int) map[*ssa.Function]bool
 
 func runC19(r *Run) {
 	defer c19DerivedIndexes(r)
+	defer c19ExportShape(r)
 	P := r.P
 	r.Rule("R1", "TABLE.field-symmetry: per module, {GenesisState fields assigned in code reachable from ExportGenesis (composite literal or NewGenesisState parameters)} = {GenesisState fields read in code reachable from InitGenesis} = all fields of the struct")
 	r.Rule("R2", "REACH.store-coverage: per module, every []byte key-prefix variable of x/<m>/types that a consensus-scope function uses together with a store Set/Delete is used by a function reachable from ExportGenesis and by a store-writing function reachable from InitGenesis, unless tabled as derived/transient")
@@ -830,5 +831,88 @@ func c19DerivedIndexes(r *Run) {
 		})
 	}
 	r.Floor("R7", "SetDenomMap/SetERC20Map call sites", n, 6)
+	// the duplicate check of a registration is keyed like the map it protects
+	if rc, ok := P.FnOK("(x/erc20/keeper.Keeper).RegisterCoin"); ok {
+		okKey, nChk := true, 0
+		eachCall(rc, func(ci CallInfo) {
+			if ci.Name != "IsDenomRegistered" {
+				return
+			}
+			nChk++
+			a := ci.Instr.Common().Args
+			if !backSlice(a[len(a)-1]).HasField("Metadata", "Base") {
+				okKey = false
+			}
+		})
+		r.Check(okKey && nChk >= 1, "R7", fnID(rc)+"#duplicate-check-keyed-by-Base", P.Pos(fnPos(rc)), "IsDenomRegistered(metadata.Base)",
+			"RegisterCoin looks the coin up under something other than its base denomination, the key the denom map is written with: the check never hits, a coin can be registered twice, the last registration wins on the running chain while InitGenesis rebuilds the map in pair-id order — after an export/import cycle the denomination resolves to the other pair (and the exported erc20 genesis fails its own validation)")
+	} else {
+		r.Bad("R7", "anchor/RegisterCoin", "", "not found")
+	}
 	r.Import("R7/C12.", []string{"R1", "R4"}, runC12)
+}
+
+// c19ExportShape (C19 R8): what the export writes can be imported again; store keys are decoded with the module's own functions.
+func c19ExportShape(r *Run) {
+	P := r.P
+	r.Rule("R8", "PATH.export-is-importable: (a) the EVM module's ExportGenesis lists an account only over the edge on which its address is 20 bytes long — the bank keeper creates an EthAccount for any recipient address length, EthAddress() crops to the last 20 bytes, and InitGenesis looks the cropped address up and panics ('account not found'): one transfer to a 32-byte address made every later export un-importable; (b) the zero-height export decodes validator store keys with the staking module's key function, never by slicing iter.Key() at a fixed offset (keys are length-prefixed since SDK 0.43: the hand-sliced address is 21 bytes and no validator is ever found)")
+	if eg, ok := P.FnOK("x/evm.ExportGenesis"); ok {
+		bad := ""
+		n := 0
+		for _, f := range withAnon(eg) {
+			eq, _ := condEdges(f, func(x, y ssa.Value) bool {
+				c, ok := stripValue(x).(*ssa.Call)
+				if !ok {
+					return false
+				}
+				b, ok := c.Call.Value.(*ssa.Builtin)
+				if !ok || b.Name() != "len" {
+					return false
+				}
+				nn, okc := constInt(y)
+				return okc && nn == 20 && backSlice(c.Call.Args[0]).HasCall(func(g CallInfo) bool { return g.Name == "GetAddress" })
+			})
+			eachInstr(f, func(in ssa.Instruction) {
+				c, ok := in.(*ssa.Call)
+				if !ok {
+					return
+				}
+				b, ok := c.Call.Value.(*ssa.Builtin)
+				if !ok || b.Name() != "append" || !strings.Contains(c.Type().String(), "GenesisAccount") {
+					return
+				}
+				n++
+				if w := (PathQuery{Fn: f, Target: func(x ssa.Instruction) bool { return x == in }, DelEdge: edgeSet(eq)}).Search(); w != nil || len(eq) == 0 {
+					bad = P.Pos(instrPos(in))
+				}
+			})
+		}
+		r.Check(bad == "" && n >= 1, "R8", fnID(eg)+"#lists-20-byte-accounts-only", P.Pos(fnPos(eg)), "a genesis account is appended only where len(GetAddress()) == 20",
+			"the EVM export lists accounts whose stored address is not 20 bytes long under the cropped address (at "+bad+"): the import looks that address up, finds no account and panics — the chain's own export cannot be imported")
+	} else {
+		r.Bad("R8", "anchor/x/evm.ExportGenesis", "", "not found")
+	}
+	nK := 0
+	for _, fn := range P.Funcs {
+		if fnPkgPath(fn) != haqqMod+"/app" || isTestSupport(P, fn) || fn.Synthetic != "" || !strings.HasSuffix(P.FileOf(fnPos(outermost(fn))), "export.go") {
+			continue
+		}
+		eachInstr(fn, func(in ssa.Instruction) {
+			sl, ok := in.(*ssa.Slice)
+			if !ok {
+				return
+			}
+			c, ok := stripValue(sl.X).(*ssa.Call)
+			if !ok || callInfo(c).Name != "Key" {
+				return
+			}
+			nK++
+			r.Bad("R8", fnID(fn)+"#store-key-sliced-by-hand", P.Pos(instrPos(in)), "the export decodes a store key by slicing iter.Key() at a fixed offset: with length-prefixed keys the result is not the address, the lookup fails and the zero-height export aborts on every chain")
+		})
+		if len(findCalls(fn, func(ci CallInfo) bool { return ci.Name == "AddressFromValidatorsKey" })) > 0 {
+			nK++
+			r.OK("R8", fnID(fn)+"#store-key-decoded-by-module", P.Pos(fnPos(fn)), "validator keys decoded with stakingtypes.AddressFromValidatorsKey")
+		}
+	}
+	r.Floor("R8", "store-key decodings in app/export.go", nK, 1)
 }
